@@ -1,5 +1,7 @@
 from copy import copy
 
+from vtlengine import _verif
+
 
 class VirtualCounter:
     _instance = None
@@ -18,17 +20,20 @@ class VirtualCounter:
 
     @classmethod
     def reset(cls) -> None:
+        _verif.yield_point("vc.reset")
         cls.dataset_count = 0
         cls.component_count = 0
 
     @classmethod
     def _new_ds_name(cls) -> str:
+        _verif.yield_point("vc.new")
         cls.dataset_count += 1
         name = f"__VDS_{copy(cls.dataset_count)}__"
         return name
 
     @classmethod
     def _new_dc_name(cls) -> str:
+        _verif.yield_point("vc.new")
         cls.component_count += 1
         name = f"__VDC_{copy(cls.component_count)}__"
         return name
